@@ -9,6 +9,7 @@ from vt.util import V, case_rng, rng_for
 
 PROPERTY = "C17"
 TITLE = "Thermal noise"
+TECHNIQUE = ('runtime monitoring: recorded noise waveforms decided by the explicit cosine sum of the published basis, DFT band power, RMS relations and re-gridding in absolute time; decoy noise objects with the same sampling created first')
 ANCHORS = ["pyrex.signals:FFTThermalNoise.__init__", "pyrex.signals:FullThermalNoise.__init__", "pyrex.signals:FunctionSignal.with_times",
            "pyrex.signals:FunctionSignal.values"]
 RULE = ("one case = (implementation FFT/Full, N in 16..4096, dt 1e-10..1e-8, grid offset, band class inside/touching-zero/"
